@@ -3,6 +3,7 @@ package optionreflect
 import (
 	"math"
 	"math/bits"
+	"sort"
 	"strconv"
 	"unicode/utf8"
 
@@ -77,7 +78,19 @@ func walkOptionMap(fieldDesc protoreflect.FieldDescriptor, mp protoreflect.Map) 
 		panic("map value is message, not supported")
 	}
 
-	mp.Range(func(key protoreflect.MapKey, val protoreflect.Value) bool {
+	// Range visits the entries in a random order, the printed file must not
+	// change from run to run.
+	keys := make([]protoreflect.MapKey, 0, mp.Len())
+	mp.Range(func(key protoreflect.MapKey, _ protoreflect.Value) bool {
+		keys = append(keys, key)
+		return true
+	})
+	sort.Slice(keys, func(i, j int) bool {
+		return mapKeyLess(keys[i], keys[j])
+	})
+
+	for _, key := range keys {
+		val := mp.Get(key)
 		mapVal := walkOptionScalar(fieldDesc.MapValue(), val)
 		keyVal := walkOptionScalar(fieldDesc.MapKey(), key.Value())
 		mapVal.Key = "value"
@@ -91,10 +104,23 @@ func walkOptionMap(fieldDesc protoreflect.FieldDescriptor, mp protoreflect.Map) 
 			},
 		}
 		out.Children = append(out.Children, kvChild)
-		return true
-	})
+	}
 
 	return out
+}
+
+func mapKeyLess(a, b protoreflect.MapKey) bool {
+	switch av := a.Interface().(type) {
+	case string:
+		return av < b.String()
+	case bool:
+		return !av && b.Bool()
+	case int32, int64:
+		return a.Int() < b.Int()
+	case uint32, uint64:
+		return a.Uint() < b.Uint()
+	}
+	return a.String() < b.String()
 }
 
 func walkOptionMessage(fieldDesc protoreflect.FieldDescriptor, msgVal protoreflect.Message) OptionField {
